@@ -176,6 +176,58 @@ theorem Ob_OrderedMap_set_step (M : DMap r) (k : MKey) (w' : SW) (depth : Nat) (
         simp only [e, decide_false, Bool.false_eq_true, if_false]
         mds_finish
 
+/-- errors of the root's `Set` are passed on (no count change, no promotion, no split) -/
+theorem Ob_OrderedMap_set_step_err (M : DMap r) (k : MKey) (w' : SW) (depth : Nat) (ks old : Option SV) (e : GE)
+    (root' : DSlab r) (s1 : MHSt r)
+    (hset : MapSlab_Set (envD T eb rs) (MapMetaDataSlab_Set (envD T eb rs) depth) M.root M.Storage () k (u64 0)
+      (u64 (k.dig 0)) (.key k) w' = some (ks, old, some e, root', s1)) :
+    OrderedMap_set (envD T eb rs) depth M (.key k) w' = some (none, some e, { M with root := root', Storage := s1 }) := by
+  have hd : (envD T eb rs).Digester_Digest k (0 : UInt64) = (u64 (k.dig 0), none) := rfl
+  have hset' : MapSlab_Set (envD T eb rs) (MapMetaDataSlab_Set (envD T eb rs) depth) M.root M.Storage M.digesterBuilder k
+      (0 : UInt64) (u64 (k.dig 0)) (.key k) w' = some (ks, old, some e, root', s1) := hset
+  unfold OrderedMap_set
+  simp only [envD_builder, hd, Option.isNone_none, Bool.not_true, Bool.false_eq_true, if_false, hset',
+    Option.isNone_some, Bool.not_false, if_true]
+
+/-- the same on the translation `md_map m s` of a model map handle over the heap `s` -/
+theorem Ob_OrderedMap_set_step_map (m : OMap r) (s : MHSt r) (k : MKey) (v : Elem) (depth : Nat) (ks : SV)
+    (old : Option SV) (root' : DSlab r) (s1 : MHSt r)
+    (hset : MapSlab_Set (envD T eb rs) (MapMetaDataSlab_Set (envD T eb rs) depth)
+      (md_tree m.d m.root (some (md_extra m))) s () k (u64 0) (u64 (k.dig 0)) (.key k) (.val v) =
+        some (some ks, old, none, root', s1)) :
+    OrderedMap_set (envD T eb rs) depth (md_map m s) (.key k) (.val v) =
+      mds_topSpec (envD T eb rs) { Storage := s1, root := root', digesterBuilder := () } old :=
+  Ob_OrderedMap_set_step T eb rs (md_map m s) k (.val v) depth ks old root' s1 hset
+
 end
+
+/-! ### non-vacuity -/
+namespace mdsEx
+
+/-- the model map handle whose root is the concrete 2-child index slab -/
+def om : OMap 0 := { d := 1, root := mm, ty := 0, count := 5, seed := 0 }
+
+/-- a handle whose root is an index slab with ONE child header -/
+def mm1 : MMetaSlab (MTree 0 0) :=
+  { hdr := { id := id0, size := 60, firstKey := 0 }, childHdrs := [d1.hdr], children := [d1], root := true }
+def om1 : OMap 0 := { d := 1, root := mm1, ty := 0, count := 5, seed := 0 }
+
+/-- a restructuring record whose promotion fails: makes the call visible -/
+def rs1 : DRestruct 0 := { rs0 with promote := fun M _ => (some .slabSplit, M) }
+
+/-- `Ob_OrderedMap_set_step_map` applies to the concrete map over the concrete heap -/
+example (v : Elem) : ∃ root' s1, OrderedMap_set (envD 1024 eb1 rs0) 1 (md_map om s0) (.key kk) (.val v) =
+    mds_topSpec (envD 1024 eb1 rs0) { Storage := s1, root := root', digesterBuilder := () } none :=
+  ⟨_, _, Ob_OrderedMap_set_step_map 1024 eb1 rs0 om s0 kk v 1 (.key kk) none _ _ rfl⟩
+
+def kk10 : MKey := { size := 1, pay := 7, digs := [10] }
+
+/-- ... and on the 1-child root the promotion IS called (its error comes back) -/
+example (v : Elem) : ∃ M', OrderedMap_set (envD 1024 eb1 rs1) 1 (md_map om1 s0) (.key kk10) (.val v) =
+    some (none, some .slabSplit, M') := by
+  rw [Ob_OrderedMap_set_step_map 1024 eb1 rs1 om1 s0 kk10 v 1 (.key kk10) none _ _ rfl]
+  exact ⟨_, rfl⟩
+
+end mdsEx
 
 end Atree.TransEq
